@@ -103,6 +103,7 @@ public:
     std::chrono::seconds pingInterval;
     std::unordered_map<std::string, std::string> headers; // custom upgrade headers
     TlsMode tlsMode;
+    std::size_t maxMessageSize; // largest frame / reassembled message accepted (bytes)
 
     Options()
       : autoReconnect(false)
@@ -110,6 +111,7 @@ public:
       , maxReconnectDelay(30000)
       , pingInterval(30)
       , tlsMode(TlsMode::None)
+      , maxMessageSize(16 * 1024 * 1024) // 16MB, the WebSocketServer default
     {
     }
   };
@@ -813,9 +815,19 @@ private:
 
       // A malformed header can never become a frame: fail the connection now
       // instead of treating it as "incomplete" and buffering forever.
-      if (WebSocketFrame::inspectHeader(view) == WsHeaderStatus::ProtocolError)
+      const auto headerStatus =
+        WebSocketFrame::inspectHeader(view, _options.maxMessageSize);
+      if (headerStatus == WsHeaderStatus::ProtocolError)
       {
         failConnection(1002, "Protocol error");
+        return;
+      }
+      // Refuse a frame whose DECLARED length exceeds the limit as soon as the
+      // header is readable; waiting for the payload would let the peer make us
+      // buffer up to the declared length (up to 2^63 bytes).
+      if (headerStatus == WsHeaderStatus::TooLarge)
+      {
+        failConnection(1009, "Message Too Big");
         return;
       }
 
@@ -922,6 +934,7 @@ private:
     WsOpcode opcode = WsOpcode::CONTINUATION;
     std::vector<std::uint8_t> payload;
     bool deliver = false;
+    bool tooLarge = false;
     {
       std::lock_guard<std::mutex> lock(_dataMutex);
       if (isStart)
@@ -935,7 +948,11 @@ private:
                                frame.payload.begin(), frame.payload.end());
       }
 
-      if (frame.fin)
+      if (_fragmentBuffer.size() > _options.maxMessageSize)
+      {
+        tooLarge = true;
+      }
+      else if (frame.fin)
       {
         opcode = _fragmentOpcode;
         payload = std::move(_fragmentBuffer);
@@ -943,6 +960,13 @@ private:
         _fragmentOpcode = WsOpcode::CONTINUATION;
         deliver = true;
       }
+    }
+
+    if (tooLarge)
+    {
+      // Fragments add up beyond the limit: fail (drops the fragment buffer).
+      failConnection(1009, "Message Too Big");
+      return;
     }
 
     if (deliver)
